@@ -14,7 +14,12 @@
 // model-based), sizerace (sizerace.go: shared mailboxes of a size-limited memory store, conservation
 // oracle) and boxrace (boxrace.go, added after seeded change C16-8: many goroutines on the SAME
 // mailbox of either back end - same-message removals, removals against deliveries - conservation
-// oracle over events and final content).
+// oracle over events and final content).  Added after seeded changes C16-9 and C16-10: fault shapes
+// in the seq histories of the file back end (faults.go: the content file of a listed message
+// missing or not removable when the message is deleted / evicted / expired), a hub listener that is
+// attached before the first delivery of every seq / conc / longhub history and must be told of
+// every stored and every deleted message, and stream longhub (longhub.go: messages that leave
+// after the hub's history ring has long moved past them).
 package c16
 
 import (
@@ -66,7 +71,11 @@ func init() {
 			"removes (store/manager, existing and missing), purges, cap and size evictions, retention scans (period 1ns = everything, 1h = nothing); " +
 			"stream seq = one sequential client, stream conc = 2-4 client goroutines on disjoint mailboxes, stream sizerace = 3-6 clients on the same mailboxes of a size-limited memory store, " +
 			"stream boxrace = 4-8 goroutines released together in rounds on the SAME one or two mailboxes of a manager + store (mem/file, cap 0/1/3/8, mem also maxkb 4, GOMAXPROCS 2/4/16): " +
-			"several removals of the same message, removals/purges/retention scans/MarkSeen against deliveries into the same mailbox, judged by conservation over events and final content. One listener name on both after-event brokers " +
+			"several removals of the same message, removals/purges/retention scans/MarkSeen against deliveries into the same mailbox, judged by conservation over events and final content; " +
+			"stream longhub = sequential, 2 back ends x hub history{1,3,10,30} x 6 plans: 2-10 victim messages, then history+40..55 further messages, then the victims leave by delete / purge / cap / size limit / retention scan / a mix. " +
+			"seq histories on the file back end also damage the content file of a listed message behind the store's back (removed, or replaced by a non-empty directory that cannot be unlinked) and then " +
+			"delete it, evict it by the cap, expire it by a scan or leave it to the rest of the history. Every seq/conc/longhub history keeps one msghub listener attached from before the first delivery: " +
+			"it must be handed exactly the stored and deleted events the extension listener is handed, stored before deleted. One listener name on both after-event brokers " +
 			"records entry/exit on a logical clock and does seeded work (0-3 Gosched, 0-100us spin/sleep). Non-trivial: a history with >=1 stored and >=1 " +
 			"deleted event, distinct by (configuration, GOMAXPROCS, set of departure reasons, event-count bucket, stream).",
 		Assumptions: []string{
@@ -76,6 +85,10 @@ func init() {
 			"the relative order of events of different mailboxes / different messages is not judged, only per-mailbox stored order and stored-before-deleted per message",
 			"hub replay: must be an in-order, duplicate-free subsequence of the live messages, at most N long, and contain every live message among the last N stored (the hub keeps the last N stored events and blanks deleted ones; a hub that compacts would also pass)",
 			"stream conc: concurrent clients own disjoint mailboxes and run without a global size limit, so each mailbox's history is sequential",
+			"hub listener attached from the start: judged at quiescence of the dispatch followed by Hub.Sync, against the events the harness's extension listener recorded (the hub is itself an extension listener); " +
+				"whether a message had already left the ring when it departed (>= history-length messages stored in between) only selects the finding key and the evidence counters - in stream conc that count is approximate",
+			"fault shapes (file back end, stream seq): the damage is done between two operations of a sequential history; what RemoveMessage returns for a damaged message is not judged - the listing afterwards says whether the message left; " +
+				"cap evictions and retention scans must agree with the model as on a healthy store, otherwise the history is abandoned as inconclusive",
 			"stream boxrace: the return values of racing RemoveMessage/PurgeMessages/MarkSeen calls are not judged, only counted; a Deliver that returns an error demands no stored event; " +
 				"stored-before-deleted is demanded only for a message that was listed at a round boundary (its Deliver had returned before the round in which it left began); " +
 				"a message that leaves while its Deliver call has not yet emitted the stored event has no defined emission order: an inversion there is counted, not judged",
@@ -94,6 +107,24 @@ func init() {
 				"boxrace_stored_events": 5000, "boxrace_deleted_events": 5000, "boxrace_order_judged": 2000,
 				"boxrace_remove_ok": 500, "boxrace_remove_notexist": 1000, "boxrace_purges": 300,
 			}
+			// fault shapes of the seq histories on the file back end (healthy quick run: about 400 histories,
+			// 1 300 damaged messages, 600 / 360 / 300 of them left by delete / cap / retention)
+			for n, v := range map[string]int64{"fault_histories": 150, "fault_damaged:missing": 300, "fault_damaged:undeletable": 150,
+				"fault_departed:remove": 200, "fault_departed:cap": 100, "fault_departed:retention": 100,
+				"fault_departed_with_siblings:remove": 150, "fault_departed_with_siblings:cap": 70, "fault_departed_with_siblings:scan": 40} {
+				m[n] = v
+			}
+			// the hub listener that stays, and stream longhub (healthy quick run: 96 histories, 3 300
+			// departures of messages the ring had moved past, 130 by explicit delete, 560 with history 30)
+			for n, v := range map[string]int64{"histories:longhub": 60, "hub_listener_stored": 50000, "hub_listener_deleted": 30000,
+				"hub_listener_deleted_after_leaving_ring":   10000,
+				"longhub_deleted_after_leaving_ring:remove": 40, "longhub_deleted_after_leaving_ring:purge": 200, "longhub_deleted_after_leaving_ring:cap": 250,
+				"longhub_deleted_after_leaving_ring:size": 50, "longhub_deleted_after_leaving_ring:retention": 400,
+				"longhub_deleted_after_leaving_ring:file": 500, "longhub_deleted_after_leaving_ring:mem": 500,
+				"longhub_deleted_after_leaving_ring:history1": 300, "longhub_deleted_after_leaving_ring:history3": 300,
+				"longhub_deleted_after_leaving_ring:history10": 200, "longhub_deleted_after_leaving_ring:history30": 150} {
+				m[n] = v
+			}
 			for _, k := range configs {
 				m["config:"+k.String()] = 5
 			}
@@ -105,8 +136,9 @@ func init() {
 
 func run(c *fw.Ctx) {
 	defer runtime.GOMAXPROCS(4)
-	c.Cases("seq", c.N(12*70, 12*700), func(i int, r *fw.Rand) { runHistory(c, i, r, false) })
-	c.Cases("conc", c.N(12*20, 12*200), func(i int, r *fw.Rand) { runHistory(c, i, r, true) })
+	c.Cases("seq", c.N(12*70, 12*700), func(i int, r *fw.Rand) { runHistory(c, i, r, "seq") })
+	c.Cases("conc", c.N(12*20, 12*200), func(i int, r *fw.Rand) { runHistory(c, i, r, "conc") })
+	c.Cases("longhub", c.N(96, 960), func(i int, r *fw.Rand) { runHistory(c, i, r, "longhub") })
 	c.Cases("sizerace", c.N(180, 3600), func(i int, r *fw.Rand) { runSizeRace(c, i, r) })
 	c.Cases("boxrace", c.N(96, 1440), func(i int, r *fw.Rand) { runBoxRace(c, i, r) })
 }
@@ -133,6 +165,11 @@ type world struct {
 	origin  *policy.Origin
 	counts  map[string]int64
 	touched map[string]bool
+	// fault shapes (faults.go): root of the file store ("" = no faults), the random stream of the
+	// fault decisions, and which messages had their content file damaged behind the store's back
+	root    string
+	fr      *fw.Rand
+	damaged map[*mrec]*damage
 }
 
 const recvdHeader = "Received: from client.test ([127.0.0.1]) by inbucket.test"
@@ -289,7 +326,14 @@ func (w *world) remove(r *mrec, viaManager bool) {
 	} else {
 		err = w.env.Store.RemoveMessage(r.M.Mailbox, r.M.ID)
 	}
-	if err != nil {
+	if d := w.damaged[r]; d != nil {
+		// The content file of this message was damaged behind the store's back (faults.go): what
+		// RemoveMessage returns is not judged.  Whether the message left is read from the listing.
+		gone, ok := w.goneAfterFaultyRemove(r, err)
+		if !ok || !gone {
+			return
+		}
+	} else if err != nil {
 		w.bad = fmt.Sprintf("RemoveMessage(%q,%q): %v", r.M.Mailbox, r.M.ID, err)
 		return
 	}
@@ -390,6 +434,12 @@ func (w *world) play(r *fw.Rand, boxes []string, nops int, allowScan bool) {
 		return mb + "@store.test"
 	}
 	for op := 0; op < nops && w.bad == ""; op++ {
+		if w.root != "" && w.fr.Chance(1, 7) {
+			w.fault(boxes, allowScan) // faults.go; decisions from w.fr, r is left alone
+			if w.bad != "" {
+				break
+			}
+		}
 		switch r.Weighted([]int{50, 8, 14, 4, 5, 3}) {
 		case 0: // deliver to 1-4 recipients
 			n := []int{1, 1, 1, 2, 2, 3, 4}[r.Intn(7)]
@@ -429,7 +479,8 @@ func (w *world) play(r *fw.Rand, boxes []string, nops int, allowScan bool) {
 
 type verdict struct{ key, what string }
 
-func runHistory(c *fw.Ctx, idx int, r *fw.Rand, concurrent bool) {
+func runHistory(c *fw.Ctx, idx int, r *fw.Rand, stream string) {
+	concurrent := stream == "conc"
 	k := configs[idx%len(configs)]
 	if concurrent && k.MaxKB > 0 {
 		k.MaxKB = 0 // a global size limit would couple the clients' mailboxes
@@ -437,9 +488,10 @@ func runHistory(c *fw.Ctx, idx int, r *fw.Rand, concurrent bool) {
 	}
 	np := procs[(idx/len(configs))%len(procs)]
 	hl := histLens[r.Intn(len(histLens))]
-	stream := "seq"
-	if concurrent {
-		stream = "conc"
+	plan := ""
+	if stream == "longhub" {
+		k, hl, plan = longhubCase(idx, r) // longhub.go
+		np = procs[r.Intn(len(procs))]
 	}
 	conf := sut.DefaultConf()
 	conf.SMTP.DiscardDomains = []string{"discard.test"}
@@ -474,11 +526,26 @@ func runHistory(c *fw.Ctx, idx int, r *fw.Rand, concurrent bool) {
 		c.Hang("hub-sync", "Hub.Sync did not return on an idle hub", dump)
 		return
 	}
+	// A hub listener that is attached before the first delivery and stays to the end (added after
+	// seeded change C16-10, see longhub.go): it must be told of every stored and every deleted
+	// message, however long ago the message left the hub's history ring.
+	liveTap := &hubTap{}
+	if ok, dump := c.Within(20*time.Second, func() {
+		hub.AddListener(liveTap)
+		hub.Sync()
+	}); !ok {
+		c.Hang("hub-sync", "Hub.Sync did not return after AddListener on an idle hub", dump)
+		return
+	}
 	baseline := settle()
 
 	// Generate and play.
 	var worlds []*world
-	if !concurrent {
+	if stream == "longhub" {
+		w := newWorld(env, k, 0, true)
+		worlds = append(worlds, w)
+		w.playLong(r, plan, hl)
+	} else if !concurrent {
 		nb := r.Range(1, 4)
 		var boxes []string
 		for j := 0; j < nb; j++ {
@@ -486,6 +553,12 @@ func runHistory(c *fw.Ctx, idx int, r *fw.Rand, concurrent bool) {
 		}
 		w := newWorld(env, k, 0, true)
 		worlds = append(worlds, w)
+		if k.Backend == "file" {
+			// fault shapes on the file back end (faults.go); their decisions come from a stream of
+			// their own so that the histories of r stay what they were
+			w.root = conf.Storage.Params["path"]
+			w.fr = c.Rand("seq-fault", idx)
+		}
 		w.play(r, boxes, r.Range(10, 45), true)
 	} else {
 		nc := r.Range(2, 4)
@@ -555,9 +628,12 @@ func runHistory(c *fw.Ctx, idx int, r *fw.Rand, concurrent bool) {
 	}
 	replay := tap.received()
 
-	vs, stats := evaluate(recs, worlds, k, !concurrent, replay, hl)
+	vs, stats := evaluate(recs, worlds, k, !concurrent, replay, hl, liveTap.sequence())
 	detail["events"] = tailRecs(recs, 120)
 	detail["hub_replay"] = replay
+	if plan != "" {
+		detail["plan"] = plan
+	}
 	seen := map[string]bool{}
 	for _, v := range vs {
 		if seen[v.key] {
@@ -590,6 +666,8 @@ func runHistory(c *fw.Ctx, idx int, r *fw.Rand, concurrent bool) {
 	if stats.stored > 0 && stats.deleted > 0 {
 		c.NonTrivial(fmt.Sprintf("%s|%s|p%d|%v|ev=%s|hub=%d", stream, k, np, reasons, bucket(len(recs)), hl))
 	}
+	reportHubListener(c, stream, k, hl, plan, stats) // longhub.go
+	reportFaults(c, k, worlds)                       // faults.go
 	c.Sample(map[string]any{"stream": stream, "config": k.String(), "gomaxprocs": np, "hub_history": hl,
 		"stored_events": stats.stored, "deleted_events": stats.deleted, "departures": stats.byReason, "hub_replay_len": len(replay)})
 }
@@ -618,6 +696,9 @@ func bucket(n int) string {
 type evalStats struct {
 	stored, deleted int64
 	byReason        map[string]int64
+	// what the hub listener attached from the start was told (longhub.go)
+	hubStored, hubDeleted int64
+	leftRing              map[string]int64 // departures relayed although the message had left the ring, by reason
 }
 
 type boxID struct{ box, id string }
@@ -632,9 +713,9 @@ func sortKeys(l []boxID) {
 }
 
 // evaluate is the oracle.
-func evaluate(recs []evRec, worlds []*world, k cfg, sequential bool, replay []evRec, histLen int) ([]verdict, evalStats) {
+func evaluate(recs []evRec, worlds []*world, k cfg, sequential bool, replay []evRec, histLen int, hubLive []evRec) ([]verdict, evalStats) {
 	var vs []verdict
-	st := evalStats{byReason: map[string]int64{}}
+	st := evalStats{byReason: map[string]int64{}, leftRing: map[string]int64{}}
 	add := func(key, format string, a ...any) { vs = append(vs, verdict{key, fmt.Sprintf(format, a...)}) }
 
 	// 1. No two invocations of the listener overlap.
@@ -902,5 +983,13 @@ func evaluate(recs []evRec, worlds []*world, k cfg, sequential bool, replay []ev
 			}
 		}
 	}
+	// 5. The hub listener that was attached from the start (longhub.go).
+	reasonOf := func(key boxID) string {
+		if r, ok := expected[key]; ok {
+			return r.Reason
+		}
+		return ""
+	}
+	vs = append(vs, judgeHubListener(recs, hubLive, histLen, reasonOf, &st)...)
 	return vs, st
 }
